@@ -1968,6 +1968,17 @@ func (m *machine) lowerTailCall(si *ssa.Instruction) {
 	}
 
 	isAllRegs := stackSlotSize == 0
+	if !isDirectCall && isAllRegs {
+		// The indirect jump below goes through r11, which is also the last integer argument register:
+		// when the callee takes an argument there, no caller-saved register is left for the target,
+		// so this cannot be a proper tail call. Fall back to call+return as when the stack is used.
+		for i := range calleeABI.Args {
+			if arg := &calleeABI.Args[i]; arg.Kind == backend.ABIArgKindReg && arg.Reg.RealReg() == r11 {
+				isAllRegs = false
+				break
+			}
+		}
+	}
 
 	switch {
 	case isDirectCall && isAllRegs:
